@@ -61,7 +61,7 @@ FIELD_OPS = [
     "dangling_input", "dup_output", "empty_name", "drop_type", "shuffle_nodes", "self_cycle", "bad_dtype", "bad_attr_type", "bad_dims", "ext_location",
     "ext_numbers", "dup_initializer", "dup_function", "dangling_output", "dup_graph_input", "dangling_device", "deep_nesting", "dup_value_info",
     "tensor_metadata", "missing_opset", "ref_attr", "sparse", "quant", "negative_dims", "string_tensor", "input_is_output", "sub_output_outer", "sub_output_outer", "sub_input_outer", "sub_init_outer", "output_is_initializer", "output_is_initializer",
-    "function_identity", "function_identity", "func_inner_shadow", "func_inner_shadow",
+    "function_identity", "function_identity", "func_inner_shadow", "func_inner_shadow", "dup_keyed", "dup_keyed",
 ]  # fmt: skip
 _IGNORED_PREFIXES = tuple(p for p in {sys.prefix, sys.base_prefix, "/repo", "/verif", "/venv", "/root/.pyenv", "/usr/lib/python3", "/usr/lib/python3.12", "/proc/self"} if p)
 
@@ -373,6 +373,42 @@ def damage_fields(p: onnx.ModelProto, opsl: list) -> None:
                         vo.type.tensor_type.elem_type = 1
                     if (c >> 9) % 3:
                         p.ir_version = [8, 9][(c >> 11) % 2]
+        elif kind == "dup_keyed":
+            # the same key twice in a repeated field that ir-py reads into a mapping (opset imports under both spellings
+            # of the default domain, metadata keys, attribute names): whatever wins, one more round trip must agree
+            which = c % 7
+            f = p.functions[(c >> 4) % len(p.functions)] if p.functions else None
+            if which == 0:
+                oi = p.opset_import.add()
+                oi.domain, oi.version = "ai.onnx", 11 + (c >> 3) % 9
+            elif which == 1 and f is not None:
+                oi = f.opset_import.add()
+                oi.domain, oi.version = "ai.onnx", 11 + (c >> 3) % 9
+                if (c >> 8) % 2 and not any(o.domain == "" for o in f.opset_import):
+                    o2 = f.opset_import.add()
+                    o2.domain, o2.version = "", 12
+            elif which == 2:
+                oi = p.opset_import.add()
+                oi.domain, oi.version = ["", "ai.onnx.ml", "ai.onnx"][(c >> 3) % 3], 3 + (c >> 5) % 5
+                o2 = p.opset_import.add()
+                o2.domain, o2.version = oi.domain, oi.version + 1
+            elif which == 3:
+                carrier = [p, g, n, f][(c >> 3) % 4]
+                if carrier is not None and hasattr(carrier, "metadata_props"):
+                    for val in ("first", "second"):
+                        e = carrier.metadata_props.add()
+                        e.key, e.value = "dupkey", val
+            elif which == 4 and n is not None:
+                for val in (1, 2):
+                    at = n.attribute.add()
+                    at.name, at.type, at.i = "dup_attr", onnx.AttributeProto.INT, val
+            elif which == 5 and n is not None:
+                n.domain = "ai.onnx"
+            elif which == 6 and f is not None:
+                f.attribute.append("alpha")
+                f.attribute.append("alpha")
+                ap = f.attribute_proto.add()
+                ap.name, ap.type, ap.f = "alpha", onnx.AttributeProto.FLOAT, 2.0
         elif kind == "dup_value_info" and g.value_info:
             vi = g.value_info.add()
             vi.CopyFrom(g.value_info[0])
